@@ -53,7 +53,7 @@ pub fn default_runs(prop: &str, tier: &str) -> u64 {
         _ => 50_000,
     };
     if tier == "thorough" {
-        quick * 20
+        quick * 40
     } else {
         quick
     }
